@@ -504,3 +504,157 @@ def rule_gram_opt(ctx: RuleContext, p: Program, tcs: list, rid: str) -> None:
             ctx.ok(rid, site, f'{names}: all {2 ** len(opt)} presence combinations are grammatical')
     if n < 20:
         raise AnalysisError(f'GRAM-OPT: only {n} classes with grammar-delivered optional children')
+
+
+# ====================================================================== TERM-DOMAIN (added after seeded round 6)
+def rule_term_domain(ctx: RuleContext, p: Program, rid: str, only: Optional[set[str]] = None) -> None:
+    """the language of each value-carrying terminal of the current grammar includes the documented value domain of its token type"""
+    import json
+    import os
+    ctx.rule(rid, 'the language of every string-valued terminal of the current beancount.lark includes the value domain of its token type '
+                  '(fixtures/token_domains.json: the token languages of beancount\'s lexer at the commit the grammar cites), decided by '
+                  'automata inclusion with a counterexample word: a value of the domain that the terminal does not match is written by '
+                  'from_value / a value setter (which do not validate) and then lexes back as something else or not at all')
+    here = os.path.dirname(os.path.dirname(os.path.dirname(os.path.abspath(__file__))))
+    table = json.load(open(os.path.join(here, 'fixtures', 'token_domains.json'), encoding='utf-8'))['domains']
+    g = grammar(p)
+    n = 0
+    for tname, spec in sorted(table.items()):
+        if only is not None and tname not in only:
+            continue
+        if tname not in g.terminals:
+            raise AnalysisError(f'{rid}: terminal {tname} is not defined by the grammar any more')
+        t = g.terminal_nfa(tname)
+        if t.approx:
+            raise AnalysisError(f'{rid}: terminal {tname} uses assertions; inclusion would be unsound')
+        ok, w = rx.included(rx.from_regex(spec['regex']), t)
+        n += 1
+        ctx.check(ok, rid, f'beancount.lark:{tname}', 'includes its value domain',
+                  f'{tname} is now /{g.terminals[tname].pattern.to_regexp().encode("unicode_escape").decode()[:140]}/, which does not match {w!r} -- a value of the domain ({spec["source"]}). '
+                  f'from_value and the value setters write it without validation, so the token does not lex back as one {tname} and a '
+                  f'ledger that contains it is not accepted by parse()', 'autobean_refactor/beancount.lark',
+                  note=f'/{spec["regex"][:60]}/ included')
+    if n < (len(table) if only is None else 1):
+        raise AnalysisError(f'{rid}: only {n} terminals compared')
+
+
+# ====================================================================== LEX-PRIO (added after seeded round 6)
+def _always_accept(p: Program, g: Any) -> dict[str, set[str]]:
+    """PostLex classes of parser.py -> the terminal names their `always_accept` evaluates to (module / class string constants, the
+    grammar's %ignore list for a name assigned from `<grammar>.ignore`)"""
+    m = p.module('parser')
+    out: dict[str, set[str]] = {}
+    mod_assign: dict[str, ast.AST] = {}
+    for st in ast.walk(m.tree):
+        if isinstance(st, ast.Assign) and len(st.targets) == 1 and isinstance(st.targets[0], ast.Name):
+            mod_assign.setdefault(st.targets[0].id, st.value)
+    for c in [x for x in m.tree.body if isinstance(x, ast.ClassDef)]:
+        consts = {st.targets[0].id: st.value for st in c.body if isinstance(st, ast.Assign) and len(st.targets) == 1 and isinstance(st.targets[0], ast.Name)}
+        if 'always_accept' not in consts:
+            continue
+
+        def ev(e: ast.AST, depth: int = 0) -> set[str]:
+            if depth > 6:
+                raise AnalysisError('LEX-PRIO: always_accept is too deeply nested')
+            if isinstance(e, ast.Constant) and isinstance(e.value, str):
+                return {e.value}
+            if isinstance(e, (ast.Set, ast.List, ast.Tuple)):
+                return set().union(*[ev(x, depth + 1) for x in e.elts]) if e.elts else set()
+            if isinstance(e, ast.BinOp) and isinstance(e.op, ast.BitOr):
+                return ev(e.left, depth + 1) | ev(e.right, depth + 1)
+            if isinstance(e, ast.Call) and norm(e.func) in ('frozenset', 'set', 'tuple', 'list') and len(e.args) <= 1:
+                return ev(e.args[0], depth + 1) if e.args else set()
+            if isinstance(e, ast.Attribute) and e.attr == 'ignore':
+                return set(g.ignore)
+            if isinstance(e, ast.Name):
+                if e.id in consts and e.id != 'always_accept':
+                    return ev(consts[e.id], depth + 1)
+                if e.id in mod_assign:
+                    return ev(mod_assign[e.id], depth + 1)
+            raise AnalysisError(f'LEX-PRIO: cannot evaluate always_accept of {c.name}: `{norm(e)[:60]}`')
+        out[c.name] = ev(consts['always_accept'])
+    return out
+
+
+def rule_lex_prio(ctx: RuleContext, p: Program, rid: str) -> None:
+    """ordered-choice lexing: no terminal that is tried earlier cuts a lexeme of a later terminal short in a parser state that accepts both"""
+    import lark
+    ctx.rule(rid, 'lark\'s lexer tries the terminals a parser state accepts in a fixed order (priority, then maximal width, then pattern '
+                  'length) and takes the FIRST that matches, not the longest.  For every state of the LALR table lark builds for the current '
+                  'grammar (contextual lexer: terminals of the state + always_accept of the PostLex classes) and every pair A tried before B: '
+                  'no word of L(B) has a proper prefix that A matches (automata product; a trailing look-ahead of A is honoured).  Otherwise a '
+                  'legal B -- an account Cash:Wallet, a currency TRUEX -- is cut into A + garbage and parse() rejects text the models print')
+    g = grammar(p)
+    m = p.module('parser')
+    lexer_kinds = {k.value.value for c in ast.walk(m.tree) if isinstance(c, ast.Call) and norm(c.func).endswith('Lark')
+                   for k in c.keywords if k.arg == 'lexer' and isinstance(k.value, ast.Constant)}
+    if not lexer_kinds:
+        raise AnalysisError('LEX-PRIO: the lark.Lark(...) construction with its lexer= option was not found in parser.py')
+    starts = [n for n in g.rule_defs if not n.startswith('_') and not g.rule_defs[n][0]]
+    try:
+        lk = lark.Lark(g.text, parser='lalr', lexer='contextual', start=starts)
+        states = lk.parser.parser._parse_table.states
+    except Exception as ex:  # noqa: BLE001
+        raise AnalysisError(f'LEX-PRIO: lark cannot build the LALR table of the grammar: {type(ex).__name__}: {str(ex)[:120]}')
+    terms = g.terminals
+    always = _always_accept(p, g)
+    if not always:
+        raise AnalysisError('LEX-PRIO: no PostLex class with always_accept found')
+
+    def order(names: Any) -> list[str]:
+        ts = [terms[n] for n in names if n in terms]
+        ts.sort(key=lambda x: (-x.priority, -x.pattern.max_width, -len(x.pattern.value), x.name))
+        return [t.name for t in ts]
+
+    accept_sets: dict[frozenset, Any] = {}
+    for cname, alw in sorted(always.items()):
+        if lexer_kinds <= {'contextual'}:
+            for s, row in states.items():
+                acc = frozenset(k for k in row if k in terms) | frozenset(a for a in alw if a in terms)
+                accept_sets.setdefault(acc, (cname, s))
+        else:
+            accept_sets.setdefault(frozenset(terms), (cname, 'every state (basic lexer)'))
+    nfas: dict[str, Any] = {}
+    cache: dict[tuple[str, str], Any] = {}
+    found: dict[tuple[str, str], tuple[str, Any]] = {}
+    skipped: set[tuple[str, str]] = set()
+    pairs = 0
+    for acc, wit in accept_sets.items():
+        o = order(acc)
+        for i, a in enumerate(o):
+            for b in o[i + 1:]:
+                if (a, b) not in cache:
+                    for t in (a, b):
+                        if t not in nfas:
+                            nfas[t] = g.terminal_nfa(t)
+                    if nfas[a].approx or nfas[b].approx:
+                        cache[(a, b)] = 'approx'
+                    else:
+                        cache[(a, b)] = ('word', rx.prefix_conflict(nfas[a], nfas[b]))
+                r = cache[(a, b)]
+                if r == 'approx':
+                    skipped.add((a, b))
+                    continue
+                pairs += 1
+                if r[1] is not None and (a, b) not in found:
+                    found[(a, b)] = (r[1], (wit, sorted(acc - set().union(*always.values()))[:8]))
+    exact = sorted(t for t, n in nfas.items() if not n.approx)
+    ctx.stats['lex_prio'] = {'lalr_states': len(states), 'accept_sets': len(accept_sets), 'ordered_pairs_decided': len([1 for v in cache.values() if v != 'approx']),
+                             'pairs_with_anchored_terminals_not_decided': len(skipped), 'exact_terminals': exact}
+    if len(states) < 100 or len(exact) < 20:
+        raise AnalysisError(f'LEX-PRIO: only {len(states)} states / {len(exact)} exact terminals analysed')
+    decided = sorted(k for k, v in cache.items() if v != 'approx')
+    for a, b in decided:
+        hit = found.get((a, b))
+        if hit is None:
+            continue
+        w, (wit, some) = hit
+        pa, pb = terms[a], terms[b]
+        ctx.fail(rid, f'beancount.lark:{a}<{b}', f'{a} cuts {b}',
+                 f'{a} (priority {pa.priority}, /{pa.pattern.to_regexp().encode("unicode_escape").decode()[:50]}/) is tried before {b} in a parser state that accepts both '
+                 f'(e.g. a state expecting {some}), and matches a proper prefix of {w!r}, which is a {b}: the lexer returns the {a} and the rest '
+                 f'does not parse.  A model constructed with such a {b} (from_value does not validate) prints text that parse() rejects',
+                 'autobean_refactor/beancount.lark')
+    for a, b in decided:
+        if (a, b) not in found:
+            ctx.ok(rid, f'beancount.lark:{a}<{b}', 'no word of the later terminal has a proper prefix the earlier one matches')
